@@ -102,8 +102,24 @@ class Mutator:
             u = np.random.rand(self.n_particles, self.n_dim)
             x = np.array([self.prior_transform(u[i]) for i in range(self.n_particles)])
             logl, blobs = self.log_likelihood(x)
+            n_drawn = self.n_particles
+            # A batch without a single supported draw has nothing to copy the zero-
+            # likelihood draws from: it would be stored as it is (log-likelihood -inf,
+            # evidence log(0)). Draw again until one draw is supported; every draw
+            # counts towards the calls and towards the supported fraction.
+            while np.all(np.isinf(logl)):
+                if n_drawn >= 10000 * self.n_particles:
+                    raise ValueError(
+                        f"the log-likelihood is infinite for all {n_drawn} prior draws"
+                    )
+                u = np.random.rand(self.n_particles, self.n_dim)
+                x = np.array(
+                    [self.prior_transform(u[i]) for i in range(self.n_particles)]
+                )
+                logl, blobs = self.log_likelihood(x)
+                n_drawn += self.n_particles
             assignments = np.zeros(self.n_particles, dtype=int)
-            calls = self.state.get_current("calls") + self.n_particles
+            calls = self.state.get_current("calls") + n_drawn
 
             self.state.update_current(
                 {
@@ -121,7 +137,7 @@ class Mutator:
 
             # Resample prior particles with infinite likelihoods
             inf_logl_mask = np.isinf(logl)
-            if np.any(inf_logl_mask):
+            if np.any(inf_logl_mask) or n_drawn > self.n_particles:
                 all_idx = np.arange(len(x))
                 infinite_idx = all_idx[inf_logl_mask]
                 finite_idx = all_idx[~inf_logl_mask]
@@ -143,7 +159,7 @@ class Mutator:
 
                 # Correct logZ for fraction of prior with finite likelihood support
                 n_finite = len(finite_idx)
-                n_total = len(logl)
+                n_total = n_drawn
                 logz = np.log(n_finite / n_total)
                 self.state.set_current("logz", logz)
             return
